@@ -3,6 +3,7 @@ CONSTANTS
  Family = "tiny"
  MaxMid = 11
  MaxTiny = 5
+ CarryTail = 1
  CarryLens = {}
 INIT Init
 NEXT Next
